@@ -75,6 +75,19 @@ func removePath(t *tree.Tree, p string) {
 }
 
 func newMtime(r *core.Rand, old int64) int64 {
+	if r.P(1, 5) {
+		// another instant of the same second: the whole second when the old
+		// one has a fraction, a fraction when it is a whole second (what a
+		// file unpacked from an archive and touched afterwards looks like)
+		sec := old / 1_000_000_000
+		if old%1_000_000_000 < 0 {
+			sec--
+		}
+		if whole := sec * 1_000_000_000; whole != old {
+			return whole
+		}
+		return old + int64(1+r.Intn(999_999_999))
+	}
 	for {
 		m := int64(1_000_000_000+r.Intn(700_000_000))*1_000_000_000 + int64(r.Intn(1_000_000_000))
 		if r.P(1, 6) {
